@@ -93,6 +93,10 @@ def gen_case(rng):
         # a requested integer label that the (narrow) dtype of the existing labels cannot hold
         new = list(new)
         new.insert(rng.randint(0, len(new)), rng.choice([70000, 100000 + len(new)]))
+    if lt == 'float32' and mode in ('superset', 'disjoint') and rng.random() < 0.6:
+        # a requested label that float32 (the dtype of the existing labels) cannot represent
+        new = list(new)
+        new.insert(rng.randint(0, len(new)), rng.choice([0.1, 20200000.5, 1.0 / 3]))
     if method is not None:
         new = sorted(set([v + rng.choice([0, 0.5, -0.5, 3, -3, 0.25, 40]) for v in new] or [1.0]))
     return {"mode": mode, "a": sp, "k": k, "new": new, "form": rng.choice(['list', 'arr', 'Axis']),
